@@ -109,7 +109,7 @@ func newWarcFieldsBlock(options *warcRecordOptions, _ *WarcFields, rb io.Reader,
 		}
 	}
 
-	if options.fixWarcFieldsBlockErrors && !blockValidation.Valid() {
+	if options.fixWarcFieldsBlockErrors && !blockValidation.Valid() && wfb.warcFields != nil {
 		// Write corrected warc fields block to content buffer
 		b := bytes.Buffer{}
 		_, err = wfb.WarcFields().Write(&b)
